@@ -12,7 +12,11 @@
 //   hexkey <hex>                   private/tohex.h writer, read back through key(std::string)
 //   big  <algo> <nbytes> <chunk>   message byte i = i mod 251 generated here, fed in chunks (counter carries)
 //   rekey <bits> <key1> <key2> <iv> <plain> <used>   second set_key on one object
+//   cbcname <hex of name>        cbc::create(std::string)
+//   cbcobj <bits> <op>...          one object, calls with real operands: k<hex> i<hex> e<hex> d<hex>
 //   sess hmac <algo> <key> <plain> | sess aes <cbc> <mac> <cbckey> <mackey> <plain>
+//   sessd hmac <algo> <key> <cookie> | sessd aes <cbc> <mac> <cbckey> <mackey> <cookie>   decrypt of a cookie made by the check
+//   sessk <cbc> <key> <plain>     aes_factory(algo,key): key splitting / stretching
 // <msg> = "." (no append call) or chunks separated by ',' (each hex, "-" = empty chunk)
 #include <cppcms/crypto.h>
 #include <booster/backtrace.h>
@@ -126,6 +130,17 @@ static std::string crypt(cr::cbc &c,std::string const &in,bool enc)
 	if(enc) c.encrypt(&i[0],&o[0],in.size()); else c.decrypt(&i[0],&o[0],in.size());
 	for(size_t k=in.size();k<in.size()+16;k++) if(o[k]!=char(0xA5)) return "OVERRUN";
 	return std::string(&o[0],in.size());
+}
+
+// the exceptions of the cbc object folded into a small enum
+static std::string ia_name(std::string const &w)
+{
+	return w.find("Invalid key size")!=std::string::npos ? "badkey" : w.find("Invalid IV size")!=std::string::npos ? "badiv" : "invalid_argument";
+}
+static std::string rt_name(std::string const &w)
+{
+	return w.find("without key")!=std::string::npos ? "nokey" : w.find("without initial vector")!=std::string::npos ? "noiv"
+		: w.find("set key more then once")!=std::string::npos ? "keytwice" : "runtime_error";
 }
 
 int main(int argc,char **argv)
@@ -275,12 +290,48 @@ int main(int argc,char **argv)
 				}
 				catch(booster::invalid_argument const &e) {
 					std::string w=e.what();
-					st= w.find("Invalid key size")!=std::string::npos ? "badkey" : w.find("Invalid IV size")!=std::string::npos ? "badiv" : "invalid_argument";
+					st=ia_name(w);
 				}
 				catch(booster::runtime_error const &e) {
 					std::string w=e.what();
-					st= w.find("without key")!=std::string::npos ? "nokey" : w.find("without initial vector")!=std::string::npos ? "noiv" : "runtime_error";
+					st=rt_name(w);
 				}
+				out<<" "<<st;
+			}
+		}
+		else if(v.size()==2 && v[0]=="cbcname") {
+			std::unique_ptr<cr::cbc> c=cr::cbc::create(unhex(v[1]));
+			if(!c.get()) out<<"cbcname null"; else out<<"cbcname "<<c->key_size()<<" "<<c->block_size();
+		}
+		else if(v.size()>=2 && v[0]=="cbcobj") {
+			// one object, any sequence of calls with real operands: k<hex> set_key, i<hex> set_iv, e<hex> encrypt, d<hex> decrypt
+			// ("-" = empty operand); answer per call: status, and for a served encrypt/decrypt the output bytes
+			int bits=atoi(v[1].c_str());
+			std::unique_ptr<cr::cbc> c=cr::cbc::create(bits==128?cr::cbc::aes128:bits==192?cr::cbc::aes192:cr::cbc::aes256);
+			out<<"cbcobj";
+			if(!c.get()) out<<" null";
+			else for(size_t i=2;i<v.size();i++) {
+				std::string st="ok";
+				try {
+					std::string z=unhex(v[i].substr(1));
+					switch(v[i][0]) {
+					case 'k': c->set_key(cr::key(z.data(),z.size())); break;
+					case 'i': { std::vector<char> b(z.begin(),z.end()); b.push_back(0); c->set_iv(&b[0],z.size()); } break;
+					case 'e':
+					case 'd': {
+							std::vector<char> in(z.begin(),z.end()),o(z.size()+16,char(0xA5));
+							in.push_back(0);
+							if(v[i][0]=='e') c->encrypt(&in[0],&o[0],z.size()); else c->decrypt(&in[0],&o[0],z.size());
+							bool over=false;
+							for(size_t k=z.size();k<z.size()+16;k++) if(o[k]!=char(0xA5)) over=true;
+							st= over ? "OVERRUN" : "ok:"+hex(std::string(&o[0],z.size()));
+						}
+						break;
+					default: st="BAD-OP";
+					}
+				}
+				catch(booster::invalid_argument const &e) { st=ia_name(e.what()); }
+				catch(booster::runtime_error const &e) { st=rt_name(e.what()); }
 				out<<" "<<st;
 			}
 		}
@@ -306,6 +357,41 @@ int main(int argc,char **argv)
 			std::string q; if(e2->decrypt(c.substr(0,c.size()-1),q)) bad++;
 			if(c.size()>=16 && e2->decrypt(c.substr(16),q)) bad++;
 			out<<"sess aes "<<hex(c)<<" fresh="<<(c!=c2)<<" dec="<<(ok && p==plain && ok2 && p2==plain)<<" forged="<<bad;
+		}
+		else if(v.size()==5 && v[0]=="sessd" && v[1]=="hmac") {
+			// hmac_cipher::decrypt of a cookie made by the check (valid, boundary and malformed ones); twice on one object
+			std::string k=unhex(v[3]),c=unhex(v[4]);
+			cppcms::sessions::impl::hmac_factory f(v[2],cr::key(k.data(),k.size()));
+			std::unique_ptr<cppcms::sessions::encryptor> e=f.get();
+			std::string p1="stale",p2="stale";
+			bool ok1=e->decrypt(c,p1),ok2=e->decrypt(c,p2);
+			if(ok1!=ok2 || (ok1 && p1!=p2)) out<<"sessd PATHS-DIFFER";
+			else if(ok1) out<<"sessd ok:"<<hex(p1); else out<<"sessd fail";
+		}
+		else if(v.size()==7 && v[0]=="sessd" && v[1]=="aes") {
+			// aes_cipher::decrypt of a cookie made by the check; on two objects (each has its own nonce IV) and twice on the first
+			std::string ck=unhex(v[4]),mk=unhex(v[5]),c=unhex(v[6]);
+			cppcms::sessions::impl::aes_factory f(v[2],cr::key(ck.data(),ck.size()),v[3],cr::key(mk.data(),mk.size()));
+			std::unique_ptr<cppcms::sessions::encryptor> e1=f.get(),e2=f.get();
+			std::string p1="stale",p2="stale",p3="stale";
+			bool ok1=e1->decrypt(c,p1),ok2=e1->decrypt(c,p2),ok3=e2->decrypt(c,p3);
+			if(ok1!=ok2 || ok1!=ok3 || (ok1 && (p1!=p2 || p1!=p3))) out<<"sessd PATHS-DIFFER";
+			else if(ok1) out<<"sessd ok:"<<hex(p1); else out<<"sessd fail";
+		}
+		else if(v.size()==4 && v[0]=="sessk") {
+			// aes_factory(algo,key): one configured key split or stretched into the cbc key and the mac key
+			std::string k=unhex(v[2]),plain=unhex(v[3]);
+			try {
+				cppcms::sessions::impl::aes_factory f(v[1],cr::key(k.data(),k.size()));
+				std::unique_ptr<cppcms::sessions::encryptor> e1=f.get(),e2=f.get();
+				std::string c=e1->encrypt(plain),p="stale";
+				bool ok=e2->decrypt(c,p);
+				out<<"sessk "<<hex(c)<<" dec="<<(ok && p==plain);
+			}
+			catch(booster::invalid_argument const &e) {
+				std::string w=e.what();
+				out<<"sessk "<<(w.find("invalid key length")!=std::string::npos ? "badkeylen" : w.find("not supported")!=std::string::npos ? "unsupported" : "invalid_argument");
+			}
 		}
 		else out<<"BAD-CASE";
 		}
